@@ -53,6 +53,7 @@ def gen_case(run_seed, tier):
     sz = stream(run_seed, "sizes")
     method = sz.choice(METHODS + ["default", "default"])
     nmax = 6 if tier == "thorough" else 5
+    big = sz.random() < 0.1  # an 8-vertex target now and then (size-gated code paths); kept to cheap methods
     if method == "linear":
         g, fam = graphs.relabel(sz, graphs.path(sz.randint(3, nmax))), "path"
     elif method == "rgs":
@@ -61,12 +62,20 @@ def gen_case(run_seed, tier):
         g, fam = graphs.random_graph(sz, 3, 5, connected=True, allow_isolated=False)
     else:
         g, fam = graphs.random_graph(sz, 3, nmax, connected=True, allow_isolated=False)
+    if big:
+        method = sz.choice(["none", "lc_with_iso", "random", "default"])
+        while True:
+            g = graphs.relabel(sz, graphs.er(sz, 8, sz.choice([0.3, 0.45])) if sz.random() < 0.6 else graphs.tree(sz, 8))
+            if graphs.is_connected(g):
+                break
+        fam = "big"
     return {
         "n": g[0], "edges": [list(e) for e in g[1]], "family": fam, "method": method,
-        "n_iso": sz.randint(1, 4), "n_lc": sz.randint(1, 4), "depth": sz.choice([None, None, 1, 2, 3]),
+        "n_iso": sz.randint(1, 4) if not big else sz.randint(2, 3), "n_lc": sz.randint(1, 4) if not big else sz.randint(1, 2),
+        "depth": sz.choice([None, None, 1, 2, 3]),
         "seed": sz.choice([None, sz.randrange(1000), sz.randrange(1000)]),
         "present": sz.choice(["nx", "g", "s", "dm"]),
-        "default_solver": method == "default" and sz.random() < 0.6,
+        "default_solver": method == "default" and sz.random() < 0.6 and not big,
         "lseed": sz.randrange(10**9), "bug_rate": sz.choice([0.0, 0.0, 0.2, 0.5]),
         "shuffle_nodes": sz.random() < 0.35,
         "shuffle_edges": sz.random() < 0.35,
@@ -190,7 +199,9 @@ def run_case(case):
             break
         seen[key] = i
         # O2 LC-equivalent to the renamed target
-        orbit = gref.lc_orbit(piG)
+        orbit = gref.lc_orbit(piG, cap=20000 if n >= 8 else 200000)
+        if orbit is None:
+            ctx.probe("orbit_too_large_to_enumerate")
         if orbit is not None and key not in orbit:
             ctx.violate("A_not_lc_equivalent", i, f"entry #{i}: listed graph {sorted(g_i.edges)} is not LC-equivalent to the renamed target {piG_edges} (map {pi})", sig)
             break
